@@ -48,8 +48,8 @@ NoOp == [op |-> "check", k |-> 1, u |-> "", v |-> "", S |-> {}, pal |-> 0, flag 
 Pre(m, o) ==
     CASE o.op = "add_node" -> TRUE
       [] o.op = "add_edge" -> o.u # o.v /\ ~(o.u \in m.nodes /\ o.v \in m.nodes /\ HasPath(m.edges, o.v, o.u))
-      \* the code marginalises o.v out of every child's CPD and refuses when such a CPD does not mention o.v
-      [] o.op = "remove_node" -> o.v \in m.nodes /\ \A x \in Ch(m.edges, o.v) : HasCPD(m, x) => o.v \in m.cpds[x].parents
+      \* o.v is marginalised out of every child's CPD that mentions it (a child CPD that does not mention o.v stays as it is)
+      [] o.op = "remove_node" -> o.v \in m.nodes
       [] o.op = "add_cpd" -> PalCPD(o.pal).f.scope \subseteq m.nodes
       [] o.op = "remove_cpd" -> HasCPD(m, o.v)
       \* out-of-place variants go through copy(), which re-adds every CPD and therefore refuses CPDs that
